@@ -17,6 +17,7 @@ import (
 
 func init() {
 	vRegister("HarnessC09Login", HarnessC09Login)
+	vRegister("HarnessC09Listing", HarnessC09Listing)
 }
 
 type c09Auth struct{}
@@ -93,5 +94,88 @@ func HarnessC09Login() {
 	} else {
 		vCover("c09: login refused")
 		vAssert(!hasToken && len(got) == 0, "no token without matching credentials or without a live path to the root")
+	}
+}
+
+// HarnessC09Listing — a user's node listing contains only the subtrees of the
+// places that user is attached to.
+//
+// Real code: client.GetNodesForUser, client.GetNodes, handleNodesRequest,
+// (*DbSqlite).getNodes, data.RemoveDuplicateNodesIDParent.
+func HarnessC09Listing() {
+	sdb := vNewDB()
+	for _, t := range []string{"edges", "node_points", "edge_points"} {
+		_, err := sdb.db.Exec("DELETE FROM " + t)
+		vAssume(err == nil)
+	}
+	nc := vConn()
+	st := vStore(sdb, nc)
+	type pl struct {
+		id, up, down, typ string
+		present           bool
+		tomb              int
+	}
+	edges := []*pl{
+		{"e-root", "root", "root0", "device", true, 0},
+		{"e-g1", "root0", "g1", "group", true, vChoose(2)},
+		{"e-g2", "root0", "g2", "group", true, 0},
+		{"e-x", "g1", "x", "variable", true, vChoose(2)},
+		{"e-y", "g2", "y", "variable", true, 0},
+		{"e-xx", "x", "xx", "variable", vBool(), 0},
+		{"e-ua", "root0", "u1", data.NodeTypeUser, vBool(), vChoose(2)},
+		{"e-ub", "g1", "u1", data.NodeTypeUser, vBool(), vChoose(2)},
+		{"e-uc", "g2", "u1", data.NodeTypeUser, vBool(), vChoose(2)},
+		{"e-v", "g2", "u2", data.NodeTypeUser, true, 0},
+	}
+	t0 := vPointShape(0).Time
+	for _, e := range edges {
+		if !e.present {
+			continue
+		}
+		vPutEdge(sdb, e.id, e.up, e.down, 0, e.typ)
+		vPutEdgePoint(sdb, "ept"+e.id, e.id, data.Point{Type: data.PointTypeTombstone, Key: "0", Time: t0, Value: float64(e.tomb)})
+	}
+	vServe(nc, "nodes.*.*", st.handleNodesRequest)
+
+	user := []string{"u1", "u2", "zz"}[vChoose(3)]
+	got, err := client.GetNodesForUser(nc, user)
+	vAssert(err == nil, "the listing request is answered")
+
+	// oracle: the places the user is attached to (live placements) and everything below them through live edges
+	live := func(e *pl) bool { return e.present && e.tomb == 0 }
+	var allowed []string
+	for _, e := range edges {
+		if e.down == user && live(e) {
+			allowed = append(allowed, e.up)
+		}
+	}
+	for changed := true; changed; {
+		changed = false
+		for _, e := range edges {
+			if live(e) && vHas(allowed, e.up) && !vHas(allowed, e.down) {
+				allowed = append(allowed, e.down)
+				changed = true
+			}
+		}
+	}
+	for _, n := range got {
+		vAssert(vHas(allowed, n.ID), "a user's node listing contains only the subtrees of the places that user is attached to")
+		del, _ := n.IsTombstone()
+		vAssert(!del, "deleted placements are not listed")
+	}
+	if len(allowed) == 0 {
+		vCover("c09 listing: user attached nowhere")
+		vAssert(len(got) == 0, "a user attached nowhere is given nothing")
+	} else {
+		vCover("c09 listing: user attached somewhere")
+		// the places themselves are in the listing when they are reachable placements
+		for _, e := range edges {
+			if e.down == user && live(e) {
+				vAssert(len(got) > 0, "an attached user is given a non-empty listing")
+			}
+		}
+	}
+	if len(got) > 0 && len(allowed) < 7 {
+		vCover("c09 listing: proper subset of the tree")
 	}
 }
